@@ -217,6 +217,11 @@ impl Mem {
         s.faults = faults;
     }
 
+    /// the source lets go of its event sender (a watcher that ended)
+    pub fn drop_sender(&self) {
+        self.st().sender = None;
+    }
+
     pub fn send(&self, events: Vec<OwnedDirEntry>) -> bool {
         let sender = self.st().sender.clone();
         match sender {
